@@ -170,6 +170,7 @@ func (x *ctx) lengths(rng *rand.Rand) {
 
 // cosets: all internal representatives of one element encode identically and compare equal.
 func (x *ctx) cosets(rng *rand.Rand) {
+	mixedDone := false
 	r := x.r
 	if !gx.Available {
 		r.HookMissing("curve graft (coset representatives)")
@@ -295,6 +296,43 @@ func (x *ctx) cosets(rng *rand.Rand) {
 		}
 		wantKK := ref.RistrettoEncode(ref.B.Mul(kk))
 		wantSum := ref.RistrettoEncode(ref.B.Mul(new(big.Int).Add(kk, k2)))
+		// the expanded multiscalar routine with different static and dynamic lists on both sides of the algorithm
+		// switch (the element is [sum]B: all points are known multiples of B)
+		if !mixedDone && len(x.c.Stream)%2 == 0 {
+			mixedDone = true
+			var pk []*big.Int
+			var pp []*curve.RistrettoPoint
+			for i := 0; i < 12; i++ {
+				kv := new(big.Int).Mod(gen.RandScalar(rng, cat), ref.L)
+				pk = append(pk, kv)
+				pp = append(pp, gx.RistrettoFromEdwards(gen.LibPoint(ref.Encode(ref.B.Mul(kv)))))
+			}
+			for _, split := range [][2]int{{3, 5}, {90, 101}, {100, 100}, {1, 199}, {120, 80}, {260, 20}} {
+				var ss, ds []*scalar.Scalar
+				var sp []*curve.ExpandedRistrettoPoint
+				var dp []*curve.RistrettoPoint
+				total := new(big.Int)
+				for i := 0; i < split[0]+split[1]; i++ {
+					kv, pt := pk[i%12], pp[i%12]
+					sv := new(big.Int).Mod(gen.RandScalar(rng, cat), ref.L)
+					sl, _ := scalar.NewFromCanonicalBytes(ref.LE32(sv))
+					total.Add(total, new(big.Int).Mul(kv, sv))
+					if i < split[0] {
+						ss, sp = append(ss, sl), append(sp, curve.NewExpandedRistrettoPoint(pt))
+					} else {
+						ds, dp = append(ds, sl), append(dp, pt)
+					}
+				}
+				wantM := ref.RistrettoEncode(ref.B.Mul(total.Mod(total, ref.L)))
+				var got *curve.RistrettoPoint
+				pan, msg := mon.Try(func() { got = x.h.R().ExpandedMultiscalarMulVartime(ss, sp, ds, dp) })
+				r.Eval(nil)
+				r.Hist(fmt.Sprintf("ExpandedMultiscalarMulVartime/static=%d/dynamic=%d", split[0], split[1]))
+				if pan || !bytes.Equal(renc(got), wantM) {
+					r.Violate("ristretto/ExpandedMultiscalarMulVartime/mixed-lists", fmt.Sprintf("static=%d dynamic=%d: panic=%v %s got %x want %x", split[0], split[1], pan, msg, renc(got), wantM), x.c)
+				}
+			}
+		}
 		// a table and an expansion built from a point object that the caller changes before their first use
 		{
 			src := x.h.RVal(rbase)
